@@ -437,10 +437,14 @@ def knownUndisciplined : List (Text × Text) :=
   [(t!"Client", t!"initialized"),
    (t!"Client", t!"state"),
    (t!"sseClientTransport", t!"endpoint"),
+   -- the five stdio fields below are written once, under startMutex held by the CALLER of startProcessLocked, and read
+   -- by the goroutines that function starts afterwards: ordered by the go statement, which the lexical table cannot
+   -- express.  Close and the getters read them under startMutex since /repo efdf9ce; the race-detector runs are clean.
    (t!"stdioClientTransport", t!"process"),
    (t!"stdioClientTransport", t!"stderr"),
    (t!"stdioClientTransport", t!"stdin"),
    (t!"stdioClientTransport", t!"stdout"),
+   (t!"stdioClientTransport", t!"waitDone"),
    (t!"streamableHTTPClientTransport", t!"enableGetSSE"),
    (t!"streamableHTTPClientTransport", t!"isStateless"),
    (t!"streamableHTTPClientTransport", t!"lastEventID"),
